@@ -44,6 +44,8 @@ type Case struct {
 	// pipelining (the connection is pipelining already).  A must return at its deadline with the context's error:
 	// nobody but A may touch the connection (and its deadline) while A uses it synchronously.
 	B string `json:"b,omitempty"`
+	// retry-dl-cancel: the context that has the deadline is cancelled through its parent
+	Parent bool `json:"parent,omitempty"`
 }
 
 const slack = 250 * time.Millisecond
@@ -53,7 +55,7 @@ const hangBound = 12 * time.Second
 var sweep = []int{20, 50, 100, 200, 400}
 
 func genCase(r *gen.Rand, i int) any {
-	kinds := []string{"pipe-deadline", "pipe-cancel", "multi-deadline", "sync-deadline", "done-ctx", "flow-put", "cache-wait", "retry-cancel", "retry-skip", "retry-wait", "two-callers"}
+	kinds := []string{"pipe-deadline", "pipe-cancel", "multi-deadline", "sync-deadline", "done-ctx", "flow-put", "cache-wait", "retry-cancel", "retry-skip", "retry-wait", "two-callers", "retry-dl-cancel"}
 	c := Case{Kind: kinds[i%len(kinds)], Queue: gen.Pick(r, []string{"ring", "flowbuffer"}), Ms: gen.Pick(r, sweep), N: r.Range(2, 4)}
 	if c.Kind == "flow-put" {
 		c.Queue = "flowbuffer"
@@ -65,6 +67,12 @@ func genCase(r *gen.Rand, i int) any {
 	}
 	if c.Kind == "cache-wait" {
 		c.Adapt = r.Bool()
+	}
+	if c.Kind == "retry-dl-cancel" {
+		// a context WITH a (far) deadline, cancelled by hand during the back-off: by its own cancel function or through its parent
+		v := i / len(kinds)
+		c.Multi = v%2 == 1
+		c.Parent = (v/2)%2 == 1
 	}
 	if c.Kind == "two-callers" {
 		c.B = []string{"cancel", "bg", "noreply", "pipelining"}[(i/len(kinds))%4]
@@ -469,7 +477,7 @@ func once(c Case) (at attempt) {
 		at.coq = fmt.Sprintf("(CSelect true true false %s)", obs.Bool(at.ctxErr != nil && errors.Is(at.err, at.ctxErr)))
 		killAll(s)
 		wg.Wait()
-	case "retry-cancel", "retry-skip", "retry-wait":
+	case "retry-cancel", "retry-skip", "retry-wait", "retry-dl-cancel":
 		// the server answers LOADING: the command is retryable, the retry handler asks for `delay`
 		delay := 3 * time.Second
 		if c.Kind == "retry-wait" {
@@ -511,9 +519,26 @@ func once(c Case) (at attempt) {
 		if c.Kind == "retry-wait" {
 			ctx, cancel = context.WithTimeout(bg, 5*time.Second)
 		}
+		if c.Kind == "retry-dl-cancel" {
+			// one minute of deadline, far beyond the back-off: WaitOrSkipRetry decides to wait; the cancellation arrives meanwhile
+			cancel()
+			parent, cancelParent := context.WithCancel(bg)
+			defer cancelParent()
+			ctx, cancel = context.WithTimeout(parent, time.Minute)
+			if c.Parent {
+				time.AfterFunc(d, cancelParent)
+			} else {
+				time.AfterFunc(d, cancel)
+			}
+		}
 		defer cancel()
 		at.started = time.Now()
-		r := cl.Do(ctx, cl.B().Get().Key("k:"+tag).Build())
+		var r rueidis.RedisResult
+		if c.Multi && c.Kind == "retry-dl-cancel" {
+			r = cl.DoMulti(ctx, cl.B().Get().Key("k:"+tag).Build(), cl.B().Get().Key("k2:"+tag).Build())[0]
+		} else {
+			r = cl.Do(ctx, cl.B().Get().Key("k:"+tag).Build())
+		}
 		at.err = r.NonRedisError()
 		at.took = time.Since(at.started)
 		at.ctxErr = ctxErrOf(ctx)
@@ -532,6 +557,10 @@ func once(c Case) (at attempt) {
 			}
 			at.err, at.ctxErr = nil, nil // not a context outcome
 			at.coq = fmt.Sprintf("(CRetry %d%%Z %d%%Z true true false false %s false false)", delay.Milliseconds(), int64(c.Ms), obs.Bool(tries > 1))
+		case "retry-dl-cancel":
+			// the wait's own outcome: it ended on the context iff the call came back before the timer could fire
+			onCtx := at.ctxErr != nil && errors.Is(at.err, at.ctxErr) && at.took < delay
+			at.coq = fmt.Sprintf("(CRetry %d%%Z 60000%%Z true true true false %s true %s)", delay.Milliseconds(), obs.Bool(retried), obs.Bool(onCtx))
 		case "retry-cancel":
 			at.coq = fmt.Sprintf("(CRetry %d%%Z 0%%Z false true true false %s true %s)", delay.Milliseconds(), obs.Bool(retried),
 				obs.Bool(at.ctxErr != nil && errors.Is(at.err, at.ctxErr)))
@@ -569,6 +598,9 @@ func run(ci any) (res obs.Result) {
 	c := ci.(Case)
 	res.Kind = c.Kind
 	res.Site, res.Class = "pipe.go:Do", "late-return"
+	if strings.HasPrefix(c.Kind, "retry") {
+		res.Site = "retry.go:WaitOrSkipRetry"
+	}
 	d := time.Duration(c.Ms) * time.Millisecond
 	var at attempt
 	verdict := ""
@@ -583,7 +615,7 @@ func run(ci any) (res obs.Result) {
 			res.Oracle = fmt.Sprintf("the call did not return within %v although its context was done at %v", hangBound, d)
 			res.Class = "hang"
 			res.Nontrivial = true
-			res.Sig = fmt.Sprint(c.Kind, c.Queue, c.Ms, c.N, c.Adapt, c.Multi, c.DoneBy, c.B)
+			res.Sig = fmt.Sprint(c.Kind, c.Queue, c.Ms, c.N, c.Adapt, c.Multi, c.DoneBy, c.B, c.Parent)
 			return
 		}
 		verdict = ""
@@ -619,7 +651,7 @@ func run(ci any) (res obs.Result) {
 	res.Oracle = verdict
 	res.Coq = at.coq
 	res.Nontrivial = true
-	res.Sig = fmt.Sprint(c.Kind, c.Queue, c.Ms, c.N, c.Adapt, c.Multi, c.DoneBy, c.B)
+	res.Sig = fmt.Sprint(c.Kind, c.Queue, c.Ms, c.N, c.Adapt, c.Multi, c.DoneBy, c.B, c.Parent)
 	res.Obs = map[string]any{"took_ms": at.took.Milliseconds(), "err": fmt.Sprint(at.err), "ctx": fmt.Sprint(at.ctxErr), "sent": at.sent}
 	return
 }
